@@ -406,7 +406,9 @@ def _distance_with_params(t):
 
 
 def _distance_with_params_ndim(t):
-    return distance(t[0], t[1], use_ndim=True, **t[2])
+    dist_opts = dict(t[2])
+    dist_opts['use_ndim'] = True
+    return distance(t[0], t[1], **dist_opts)
 
 
 def _distance_c_with_params(t):
